@@ -593,8 +593,8 @@ def desugar_body(b, bodies, known_uses, log):
                 ety0 = elem_ty_of_iter(it_ty) or "?"  # (flatten first: what comes out of the source is not what the first closure takes)
             # a literal array as the source (`[a, b].into_iter().any(f)`): one copy of the element pipeline per element instead of a loop
             literal = literal_array_source(b, source) if sink != "for" else None
-            if literal is not None and len(literal) > 6:
-                literal = None
+            if literal is not None and len(literal) > (32 if sink in ("find", "find_map", "any", "all") else 6):
+                literal = None  # (a lookup in a table of names is written out row by row: it is the `match` it replaces)
             chained = chain_sources(b, source) if sink != "for" else None
             if chained is None and sink == "extend" and not stages:
                 sty_ = (source.get("p") or {}).get("ty") or (b["locals"][source["p"]["l"]]["ty"] if source["k"] in ("move", "copy") and not source["p"]["pr"] else "")
@@ -3144,6 +3144,12 @@ def phi_binding_block(blk, j):
 
 
 def unmerge_phi_joins(b, log):
+    if os.environ.get("PHIJOIN_OFF"):
+        return
+    _unmerge_phi_joins(b, log)
+
+
+def _unmerge_phi_joins(b, log):
     """`let xs = match attr { A(..) => list_a, B(..) => vec![e], _ => continue }; for x in xs { .. }`: what follows the match is the same code for
     each alternative, run on that alternative's value. When that part is small it is given to each alternative separately (as if the `for` had been
     written in each arm), so that rules which follow a value to where it came from see one origin per path instead of a merged one."""
@@ -3177,6 +3183,30 @@ def unmerge_phi_joins(b, log):
                 locals_in(b["blocks"][x]["stmts"], used)
                 locals_in(b["blocks"][x]["term"], used)
             cand = [l for l in common & used if l > b["arg_count"] and b["locals"][l]["ty"] not in ("bool", "usize", "u32", "i32", "u16", "()", "isize")]
+            if not cand:
+                continue
+            # only where the merged value is a list that the shared code walks (`for x in xs`, `out.extend(xs)`): that is where a rule needs to know
+            # which list it is. A merged scalar / option / string consumed by calls compares as the alternative it is, with no copy needed
+            walked = set()
+            for x in region:
+                t_ = b["blocks"][x]["term"]
+                f_ = callee_of(t_) if t_ is not None and t_["k"] == "call" else None
+                if f_ is None or f_["path"] not in ("std::iter::IntoIterator::into_iter", "core::slice::<impl [T]>::iter", "std::iter::Extend::extend"):
+                    continue
+                for a_ in t_["args"]:
+                    if a_["k"] not in ("move", "copy"):
+                        continue
+                    l_ = a_["p"]["l"]
+                    for _hop in range(5):
+                        walked.add(l_)
+                        d_ = single_def(b, l_)
+                        if d_ and d_[0] == "rv" and d_[3]["k"] == "use" and d_[3]["o"]["k"] in ("move", "copy"):
+                            l_ = d_[3]["o"]["p"]["l"]
+                        elif d_ and d_[0] == "rv" and d_[3]["k"] == "ref":
+                            l_ = d_[3]["p"]["l"]
+                        else:
+                            break
+            cand = [l for l in cand if l in walked]
             if not cand:
                 continue
             # a loop head among the region's exits back to a block outside is fine (the `continue` of the enclosing loop); the region itself must not be
@@ -3582,6 +3612,210 @@ def recognise_type_renames(data, ref, log):
     return mp
 
 
+def resolve_blanket_into(data, log):
+    """`x.into()` where the crate implements `From<X> for Y` (not `Into<Y> for X`): std's blanket `Into` impl does nothing but call that `from`"""
+    froms = {}
+    for b in data["bodies"]:
+        if b.get("impl_trait") == "std::convert::From" and b.get("impl_self") and b.get("arg_count") == 1 and b["path"].endswith("::from"):
+            froms.setdefault((b["locals"][1]["ty"], b["impl_self"]), []).append(b["path"])
+    if not froms:
+        return
+    n = 0
+    for b in data["bodies"]:
+        for blk in b["blocks"]:
+            t = blk["term"]
+            fn = callee_of(t) if t is not None and t["k"] == "call" else None
+            if fn is None or fn.get("path") != "std::convert::Into::into" or fn.get("resolved") != "<T as std::convert::Into<U>>::into":
+                continue
+            ga = fn.get("gargs") or []
+            cands = froms.get((ga[0], ga[1]), []) if len(ga) == 2 else []
+            if len(cands) == 1:
+                fn.update({"resolved": cands[0], "resolved_krate": data.get("crate"), "resolved_local": True, "resolved_kind": "Item"})
+                n += 1
+    if n:
+        log.append("%d `into()` call(s) through std's blanket impl resolved to the crate's own `From` impl" % n)
+
+
+def structs_as_tuples(data, ref, log):
+    """a struct that the reference tree does not have, all of whose trait impls are derived, is a tuple with names: `(String, BTreeSet<LineNumber>)`
+    turned into `struct FileMatches { file_name, lines }` builds, reads, compares (derived `Ord` is lexicographic in field order, as a tuple's) and
+    prints the same. It is written back as the tuple (a one-field struct as the field itself), so that rules speaking of "the file name, field 0 of the
+    pair" see the pair. A struct with a hand-written impl of any trait keeps its identity."""
+    adts = data.get("adts", [])
+    local = [a for a in adts if a.get("kind") == "struct" and a.get("krate") == data.get("crate") and a["path"] not in ref
+             and len(a.get("variants", [])) == 1 and a["variants"][0].get("fields")]
+    if not local:
+        return {}
+    LT = r"<(?:'\w+(?:, )?)+>"
+    owners = {}  # field (index, name) -> structs that have it, over every ADT the facts know
+    struct_fields = {}
+    for a in adts:
+        if a.get("kind") != "struct":
+            continue
+        for v in a.get("variants", []):
+            for i, f in enumerate(v.get("fields", [])):
+                owners.setdefault((i, f.get("name")), set()).add(a["path"])
+        if len(a.get("variants", [])) == 1:
+            struct_fields[a["path"]] = [f.get("tys") for f in a["variants"][0].get("fields", [])]
+    chosen = {}
+    for a in local:
+        path = a["path"]
+        fields = a["variants"][0]["fields"]
+        impls = [b for b in data["bodies"] if b.get("impl_self") == path and b.get("impl_trait")]
+        if any(not b.get("derived") for b in impls):
+            continue
+        if any(path in (f.get("tys") or "") for f in fields):
+            continue  # recursive
+        if any(not f.get("name") or str(f.get("name")).isdigit() for f in fields):
+            continue
+        tys = [f.get("tys") or "?" for f in fields]
+        chosen[path] = (fields, tys[0] if len(tys) == 1 else "(" + ", ".join(tys) + ")")
+    if not chosen:
+        return {}
+    ambiguous = set()
+    for path, (fields, _t) in chosen.items():
+        for i, f in enumerate(fields):
+            if len(owners.get((i, f["name"]), ())) != 1:
+                ambiguous.add((i, f["name"]))
+
+    def step_type(ty, e):
+        """type of `place.e` given the type of `place`, None when not known"""
+        if ty is None:
+            return None
+        ty = ty.strip()
+        if e == "deref":
+            m_ = re.match(r"^&('\w+ )?(mut )?", ty)
+            if m_:
+                return ty[m_.end():]
+            if ty.startswith("std::boxed::Box<"):
+                return _first_arg(ty[len("std::boxed::Box<"):-1])
+            return None
+        if isinstance(e, dict) and "dc" in e:
+            return ty
+        if isinstance(e, dict) and isinstance(e.get("f"), int):
+            base = re.sub(LT + "$", "", ty)
+            if base in struct_fields:
+                fs_ = struct_fields[base]
+                return fs_[e["f"]] if e["f"] < len(fs_) else None
+            tf = tuple_fields(ty)
+            if tf is not None:
+                return tf[e["f"]] if e["f"] < len(tf) else None
+            if ty.startswith("std::option::Option<") and e["f"] == 0:
+                return ty[len("std::option::Option<"):-1]
+            return None
+        return None
+
+    def owner_of(b, place, k):
+        """the chosen struct whose field the k-th projection of the place reads, None if it is another type's, "?" if it cannot be told"""
+        e = place["pr"][k]
+        cands = [p_ for p_ in chosen if e["f"] < len(chosen[p_][0]) and chosen[p_][0][e["f"]]["name"] == e.get("n")]
+        if not cands:
+            return None
+        if (e["f"], e.get("n")) not in ambiguous:
+            return cands[0]
+        ty = b["locals"][place["l"]]["ty"] if place["l"] < len(b["locals"]) else None
+        for e2 in place["pr"][:k]:
+            ty = step_type(ty, e2)
+        if ty is None:
+            return "?"
+        base = re.sub(LT + "$", "", ty.strip())
+        return base if base in cands else None
+
+    def places(x, out):
+        if isinstance(x, list):
+            for v in x:
+                places(v, out)
+        elif isinstance(x, dict):
+            if "l" in x and "pr" in x:
+                out.append(x)
+                return
+            for v in x.values():
+                places(v, out)
+
+    # first pass: a struct one of whose fields is read through a place whose type cannot be followed keeps its identity
+    undecidable = set()
+    for b in data["bodies"]:
+        ps_ = []
+        places(b["blocks"], ps_)
+        for pl in ps_:
+            for k, e in enumerate(pl["pr"]):
+                if isinstance(e, dict) and isinstance(e.get("f"), int) and (e["f"], e.get("n")) in ambiguous and owner_of(b, pl, k) == "?":
+                    for p_ in chosen:
+                        if e["f"] < len(chosen[p_][0]) and chosen[p_][0][e["f"]]["name"] == e.get("n"):
+                            undecidable.add(p_)
+    for p_ in sorted(undecidable):
+        log.append("struct %s keeps its identity: a read of one of its fields could not be told from another struct's" % p_)
+        chosen.pop(p_)
+    if not chosen:
+        return {}
+    rx = re.compile(r"(?<![\w:])(" + "|".join(re.escape(n) for n in sorted(chosen, key=len, reverse=True)) + r")(" + LT + r")?(?![\w])")
+
+    def sub(t):
+        if "::" not in t:
+            return t
+        prev = None
+        while prev != t:
+            prev = t
+            t = rx.sub(lambda m_: chosen[m_.group(1)][1], t)
+        return t
+
+    # second pass: the field reads, place by place, while the locals still have their struct types
+    for b in data["bodies"]:
+        if b.get("impl_self") in chosen and b.get("derived"):
+            continue
+        ps_ = []
+        places(b["blocks"], ps_)
+        for pl in ps_:
+            owners_k = [owner_of(b, pl, k) if isinstance(e, dict) and isinstance(e.get("f"), int) else None for k, e in enumerate(pl["pr"])]
+            new_pr = []
+            for k, e in enumerate(pl["pr"]):
+                o_ = owners_k[k]
+                if o_ in chosen:
+                    if len(chosen[o_][0]) == 1:
+                        continue  # the one field of a wrapper is the value itself
+                    new_pr.append({"f": e["f"], "n": str(e["f"])})
+                else:
+                    new_pr.append(e)
+            pl["pr"] = new_pr
+
+    def walk(x):
+        if isinstance(x, list):
+            for v in x:
+                walk(v)
+        elif isinstance(x, dict):
+            if x.get("k") == "agg" and x.get("ak") == "adt" and x.get("adt") in chosen:
+                fields, _t = chosen[x["adt"]]
+                walk(x["ops"])
+                ops = x["ops"]
+                x.clear()
+                if len(fields) == 1:
+                    x.update({"k": "use", "o": ops[0]})
+                else:
+                    x.update({"k": "agg", "ak": "tuple", "ops": ops})
+                return
+            for key, v in list(x.items()):
+                if isinstance(v, str):
+                    if key in ("ty", "tys", "self_ty", "dty"):  # (types only: paths of functions, closures and impls keep the struct's name)
+                        x[key] = sub(v)
+                elif key == "gargs" and isinstance(v, list):
+                    x[key] = [sub(g_) if isinstance(g_, str) else g_ for g_ in v]
+                else:
+                    walk(v)
+    for b in data["bodies"]:
+        if b.get("impl_self") in chosen and b.get("derived"):
+            continue
+        walk(b["locals"])
+        walk(b["blocks"])
+        for l in b["locals"]:
+            if isinstance(l.get("tt"), dict) and any(p_ in json.dumps(l["tt"]) for p_ in chosen):
+                l["tt"] = {"other": l["ty"]}
+    data["bodies"] = [b for b in data["bodies"] if not (b.get("impl_self") in chosen and b.get("derived"))]
+    data["adts"] = [a for a in adts if a["path"] not in chosen]
+    for path, (fields, t) in sorted(chosen.items()):
+        log.append("struct %s (new; derived impls only) read as %s" % (path, "the tuple " + t if len(fields) > 1 else "its one field, " + t))
+    return chosen
+
+
 def recognise_renames(data, ref, log):
     """a function of the reference tree that is gone while a new function with the same parameter and result types and the same place in the call graph
     has appeared is that function under a new name (or in a new module): the facts are rewritten to the reference name, so that rules anchored on the
@@ -3680,8 +3914,10 @@ def preprocess(data, known=None, known_uses=None):
     try:
         ctype = {"bin": "bin", "executable": "bin", "lib": "lib", "rlib": "lib"}.get(str(data.get("crate_type")), str(data.get("crate_type")))
         radts = REF_ADTS.get(ctype)
+        resolve_blanket_into(data, log)
         if radts:
             recognise_type_renames(data, radts, log)
+            structs_as_tuples(data, radts, log)
         refs = REF_SIGS.get(ctype) or REF_SIGS.get(str(data.get("crate_type")))
         if refs:
             recognise_renames(data, refs, log)
@@ -3716,7 +3952,7 @@ def preprocess(data, known=None, known_uses=None):
             guarded("match value splitting", unmerge_match_values, b, log)
         if b["path"] not in KNOWN_ARRAYLOOPS:
             guarded("literal array loop unrolling", unroll_literal_array_loops, b, log)
-        if b["path"] not in KNOWN_PHIJOIN and b["path"] not in KNOWN_ORPAT:
+        if b["path"] not in KNOWN_PHIJOIN and b["path"] not in KNOWN_ORPAT and b["path"] not in KNOWN_MATCHVAL:
             guarded("match value joins", unmerge_phi_joins, b, log)
     r = guarded("lazy statics", lambda d_: lazy_statics(d_, bodies, log), data)
     if r:
@@ -3732,7 +3968,7 @@ def preprocess(data, known=None, known_uses=None):
             r = guarded(what, fn_, b)
             if r:
                 spliced_closures |= r
-        if b["path"] not in KNOWN_PHIJOIN and b["path"] not in KNOWN_ORPAT:
+        if b["path"] not in KNOWN_PHIJOIN and b["path"] not in KNOWN_ORPAT and b["path"] not in KNOWN_MATCHVAL:
             guarded("match value joins", unmerge_phi_joins, b, log)
             guarded("loops over nothing", prune_loops_over_nothing, b, log)
         guarded("jump threading", thread_bool_jumps, b, log)
@@ -3796,6 +4032,18 @@ DORMANT = ["analyzer::ast::new_targets", "analyzer::utils::get_solidity_major_ve
 
 
 def write_known(facts, path=KNOWN_FILE):
+    # which functions of the reference tree have or-pattern / match-value shapes is asked without the size limit on the arm body: such a function keeps
+    # its merged shape (the one the rules were written against) however a later edit changes the size of its arms
+    global OR_PATTERN_BODY_LIMIT
+    saved_limit = OR_PATTERN_BODY_LIMIT
+    OR_PATTERN_BODY_LIMIT = 400
+    try:
+        _write_known(facts, path)
+    finally:
+        OR_PATTERN_BODY_LIMIT = saved_limit
+
+
+def _write_known(facts, path=KNOWN_FILE):
     fns, uses = set(), set()
     for c in facts.values():
         bodies = {b["path"]: b for b in c["bodies"]}
